@@ -149,9 +149,14 @@ func VerifC18Grammar() {
 	}
 	var lines []c18Line
 	src := ""
+	// the last line may be indented: leading blanks are not part of a statement
+	indent := []string{"", "  ", "\t"}[vrtChoice("lastLineIndent", 3)]
 	for i := 0; i < n; i++ {
 		l := c18MakeLine(i)
 		lines = append(lines, l)
+		if i == n-1 {
+			src += indent
+		}
 		src += l.text + "\n"
 	}
 	if vrtChoice("finalNewline", 2) == 0 && len(src) > 0 {
@@ -265,6 +270,24 @@ func VerifC18Keys() {
 		src = key + " \nA=0\n"
 		want["A"] = "0"
 		want[key] = "looked-up"
+	}
+	if vrtChoice("innerSpace", 2) == 1 {
+		// a blank inside the key: an invalid key, in every form and wherever the line ends
+		bad := key + " b"
+		switch form {
+		case 0:
+			src = bad + sep + "1\n"
+		case 1:
+			src = "export " + bad + sep + "1"
+		case 2:
+			src = "A=0\n" + bad
+		case 3:
+			src = bad + " \nA=0\n"
+		}
+		_, err := UnmarshalWithLookup(src, func(k string) (string, bool) { return "looked-up", true })
+		vrtObserve("err", err != nil)
+		vrtAssert("key-with-an-inner-blank-is-an-error", err != nil)
+		return
 	}
 	got, err := UnmarshalWithLookup(src, func(k string) (string, bool) { return "looked-up", k == key })
 	vrtObserve("err", err != nil)
